@@ -97,6 +97,8 @@ def main(argv):
                     continue
                 env = dict(os.environ)
                 env["VERIF_REPO"] = dst
+                env["VERIF_REPLAY_OUT"] = os.path.join(dst, "replay-out")
+                env["VERIF_EVIDENCE_OUT"] = os.path.join(dst, "evidence-out")
                 t0 = time.time()
                 p = subprocess.run([os.path.join(ROOT, "check"), prop, "--tier", tier], env=env, stdout=subprocess.PIPE,
                                    stderr=subprocess.STDOUT, text=True)
